@@ -92,6 +92,8 @@ impl BytesForm {
 pub enum Step {
     Put { class: u8, idx: u16, kind: u8, u: u32 },
     PutMany { class: u8, start: u16, n: u16, u: u32 },
+    /// `n` keys that all carry the same value (a very regular store)
+    PutSame { class: u8, start: u16, n: u16, kind: u8, u: u32 },
     Del { class: u8, idx: u16 },
     /// create table t (engine: through RelationalEngine, else slab API)
     Table { t: u8, engine: bool },
@@ -1130,6 +1132,16 @@ impl<'a> Trial<'a> {
                     self.put(&key, value_for(kind, u.wrapping_add(u32::from(j))));
                 }
             },
+            Step::PutSame { class, start, n, kind, u } => {
+                let v = value_for(*kind, *u);
+                for j in 0..*n {
+                    let key = key_for(*class, start.wrapping_add(j));
+                    self.put(&key, v.clone());
+                }
+                if *n >= 10_000 {
+                    self.ctx.probe("store_of_tens_of_thousands_of_entries");
+                }
+            },
             Step::Del { class, idx } => {
                 let key = key_for(*class, *idx);
                 match &self.live {
@@ -1900,6 +1912,17 @@ impl Scenario for C07 {
         };
         let mut steps: Vec<Step> = Vec::new();
         let nclass = KEY_CLASSES.len() as u64;
+        if rng.chance(1, 60) {
+            // the large end of the quantifier: tens of thousands of entries, very regular
+            // content (round trips only, no crash points)
+            let n = rng.range(16_000, 30_000) as u16;
+            steps.push(Step::PutSame { class: *rng.pick(&[0u8, 6]), start: 200, n, kind: *rng.pick(&[14u8, 14, 6, 18]), u: nu() });
+            steps.push(Step::PutMany { class: 1, start: 0, n: rng.range(2, 30) as u16, u: nu() });
+            steps.push(Step::Save { fmt: if rng.chance(3, 4) { Fmt::Default } else { Fmt::Uncompressed }, p: 0 });
+            steps.push(Step::Put { class: 0, idx: 0, kind: rng.below(10) as u8, u: nu() });
+            steps.push(Step::Save { fmt: Fmt::Default, p: 0 });
+            return Case { cfg: 0, observe: 0, offsets: 2, steps, mode: Mode::Chain(Vec::new()), bloom_loader: false };
+        }
         if size > 0 {
             let (lo, hi) = if size == 1 { (150, 500) } else { (1500, 3500) };
             steps.push(Step::PutMany { class: rng.below(nclass) as u8, start: 100, n: rng.range(lo, hi) as u16, u: nu() });
